@@ -64,6 +64,7 @@ type gatedHarness struct {
 	st         *stats
 	caseOps    []string
 	diverged   bool
+	stampCtr   int
 	// oracle bookkeeping (spec state)
 	pending  map[int][]int // accepted, not yet composed, per id (arrival order)
 	openedAt map[int]int64 // when the id's current group was opened
@@ -243,7 +244,10 @@ func (h *gatedHarness) exec(line string) string {
 		p := &gpay{uid: atoi(f[1]), id: atoi(f[2]), flush: f[3] == "1"}
 		h.now = int64(atoi(f[4]))
 		h.cf, h.cg, h.sf = atoi(f[5]), atoi(f[6]), atoi(f[7])
-		e := &eventlogger.Event{Type: "t", Payload: p}
+		// creation stamps that do NOT rise with arrival order (replayed or forwarded events, senders that were
+		// stamped before they got the filter's lock): what counts is the order of arrival
+		h.stampCtr++
+		e := &eventlogger.Event{Type: "t", Payload: p, CreatedAt: time.Unix(1700000000, 0).Add(-time.Duration(h.stampCtr*7919%1000) * time.Second)}
 		out, err := h.f.Process(ctx, e)
 		ret := ""
 		switch {
